@@ -222,6 +222,10 @@ package rlp
 //@   ensures [armed] result1 == nil ==> s.kind == 0 - 1
 //@   # a fixed-width integer: the decoded value fits the width asked for
 //@   ensures [fits]  result1 == nil && 8 <= maxbits && maxbits < 64 ==> result0 >> uint64(maxbits) == 0
+//@   # one accepted encoding per integer: a string-form integer is 0 (the empty string) or at least 128 (smaller values
+//@   # must come as a bare byte), and a bare byte is never 0
+//@   ensures [canonstr]  result1 == nil && @select(ghost(lastkind), ref(s)) == String ==> result0 == 0 || result0 >= 128
+//@   ensures [canonbyte] result1 == nil && @select(ghost(lastkind), ref(s)) == Byte ==> result0 != 0
 //@   modifies *s, ghost(lastkind)
 
 // decodeUint hands the stream reader the width of the TARGET type: what it stores fits that width, so nothing is
